@@ -39,7 +39,11 @@ def malformed(rng):
     if r < 0.36:
         # blanks are characters like any other: a cell padded with a blank is malformed and must come back verbatim
         return rng.choice([' 4D', ' ', '  ', ' 8r', ' =1', ' *clefG2', ' .']), 'blank-padded'
-    if r < 0.45:
+    if r < 0.42:
+        # spelled only with the character of the null token, but not a null token: reported, and kept where it stands even when
+        # everything else on its line is a null token
+        return rng.choice(['..', '...', '....', '..', '...']), 'null-like'
+    if r < 0.48:
         return rng.choice(['4#c', '#4c', '8-d', '4nc', '2##ff', '16--E']), 'wrong-order'
     if r < 0.6:
         return rng.choice(['4', '16', '8.', '2..', '3%2', '0']), 'bare-duration'
